@@ -138,6 +138,17 @@ pub fn main(args: &[String]) -> i32 {
             let gr = g.regroup(&r);
             let w: Vec<String> = (0..2 + g.rng.below(3)).map(|_| { let mut t = g.small_word(); if g.rng.chance(1, 2) { let v = ["a", "i", "u"][g.rng.below(3)]; t = format!("{t}.{v}.{}", g.small_word()); } t }).collect();
             (r, gr, w)
+        } else if case % 12 == 0 {
+            // focused stream: a rule that makes a segment long (the run grows inside the syllable's buffer, also at its very front),
+            // then rules that look at length; words with onsetless syllables among them
+            let mut r: Vec<String> = vec![["V > [+long]", "a > [+long]", "Vr > [+long] / _C", "V > [+long] / _s", "V > [+long] / _ $", "V > [+overlong] / _ #", "C > [+long] / V _ V", "[] > [+long] / # _",
+                "V > [+long] / _ C $"][g.rng.below(9)].to_string()];
+            for _ in 0..1 + g.rng.below(2) { r.push(["a:[+long] > ɔ", "V:[+long] > [-long]", "V > [+nasal] / _s", "V:[-long] > ə", "C > * / V:[+long] _", "s > z / V:[+long] _", "V:[+overlong] > [-overlong]", "C:[+long] > [-long, +voice]",
+                "V:[+long] > ai", "t > d / V:[-long] _"][g.rng.below(10)].to_string()); }
+            if g.rng.chance(1, 3) { r.push(g.basic_rule()); }
+            let gr = g.regroup(&r);
+            let w: Vec<String> = (0..2 + g.rng.below(4)).map(|_| if g.rng.chance(1, 3) { g.small_word() } else { ["at", "ar.ka", "as.ta", "pa.ark", "a", "i.a", "ta.is", "us", "an.ti", "park", "pat", "ˈa.ta", "ast", "u.ar.si"][g.rng.below(14)].to_string() }).collect();
+            (r, gr, w)
         } else { (rules, groups, words) };
         match prop {
             "glue" => glue(&mut g, &mut st, case, &groups, &words),
